@@ -121,11 +121,13 @@ theorem truncWire_canonical (e : PacketNumber) : Canonical (truncWire e) := by
 theorem encode_closed (pn la : Nat) (hla : la ≤ pn) (hgap : pn - la < 2 ^ 31) :
     encode pn la =
       if pn - la < 2 ^ 15 then .ok (.u16 (pn % 2 ^ 16))
-      else if pn - la < 2 ^ 23 then .ok (.u24 (pn % 2 ^ 32))
+      else if pn - la < 2 ^ 23 then .ok (.u24 (pn % 2 ^ 24))
       else .ok (.u32 (pn % 2 ^ 32)) := by
+  have hmask : (pn % 2 ^ 32) &&& 16777215 = pn % 2 ^ 24 := by
+    rw [show (16777215 : Nat) = 2 ^ 24 - 1 from rfl, Nat.and_two_pow_sub_one_eq_mod]; omega
   unfold encode
   simp only [pnRangeFactor, pnMinRange, pnThresh8, pnThresh16, pnThresh24, pnThresh32, pnCast16, pnCast24,
-    pnCast32, pnCast8, u64Size, Nat.max_def]
+    pnCast32, pnCast8, pnMask24, hmask, u64Size, Nat.max_def]
   have h1 : ¬ pn < la := by omega
   have h2 : ¬ 2 ^ 64 ≤ (pn - la) * 2 := by omega
   simp only [h1, h2, if_false]
